@@ -42,6 +42,7 @@ type Program struct {
 	LatencyUs    []int // KeyEventBatch latency per call (cyclic); exercises out-of-order completions
 	FinalN       int   // worker count of the read-back deployment (0 = same)
 	SlowArtifact bool  // savepoint runs: a periodic checkpoint completes while the artifact is assembled
+	Chain        int   // savepoint runs: the restored job is saved, wiped and restored once more: 1 = as soon as it has been deployed (while it processes the rest of the input), 2 = after it processed the rest
 }
 
 // Stats of a run.
@@ -692,6 +693,7 @@ func GenProgram(rt *rapid.T, faults []string, maxFaults int) Program {
 // SPStats of a savepoint run.
 type SPStats struct {
 	Folded, DifferentWorkers, FlushSwaps, FilesWiped, RemainingRecords int
+	Chained                                                            int // savepoints taken of a job that was itself restored from a savepoint
 }
 
 // RunSavepoint: run the job, request a savepoint at a drawn moment (possibly
@@ -902,6 +904,10 @@ func RunSavepoint(p Program, c *hx.Case) (st SPStats, err error) {
 }
 
 func restoreFromSavepoint(p Program, c *hx.Case, fs *storage.MemoryFilesystem, uri string, data map[string][]Rec, totals map[string]int, st SPStats) (SPStats, error) {
+	return restoreFromSavepointDepth(p, c, fs, uri, data, totals, st, 0)
+}
+
+func restoreFromSavepointDepth(p Program, c *hx.Case, fs *storage.MemoryFilesystem, uri string, data map[string][]Rec, totals map[string]int, st SPStats, depth int) (SPStats, error) {
 	cfg := p.Cfg
 	if p.FinalN > 0 {
 		cfg.Workers = p.FinalN
@@ -976,6 +982,63 @@ func restoreFromSavepoint(p Program, c *hx.Case, fs *storage.MemoryFilesystem, u
 			lastPass = time.Now()
 		}
 	}
+	chain := func() (SPStats, error) {
+		// a savepoint of the restored job (whose operators may hold tables inherited
+		// from several operators of the first job), wiped and restored once more with
+		// the same worker count
+		var spID uint64
+		requested := WaitFor(stallAfter, func() bool {
+			supervise()
+			id, serr := w.Job.HandleCreateSavepoint(context.Background())
+			if serr != nil {
+				time.Sleep(time.Millisecond)
+				return false
+			}
+			spID = id
+			return true
+		})
+		if !requested {
+			return fail(&hx.Inconclusive{Why: "the second savepoint could not be requested"})
+		}
+		var uri2 string
+		if !WaitFor(stallAfter, func() bool {
+			supervise()
+			u, uerr := w.Job.HandleGetSavepointURI(context.Background(), spID)
+			if uerr == nil && u != "" {
+				uri2 = u
+				return true
+			}
+			time.Sleep(200 * time.Microsecond)
+			return false
+		}) {
+			return fail(hx.Errf("savepoint %d of the restored job was requested but its artifact did not appear within %v", spID, stallAfter))
+		}
+		if v := w.H.Violations(); len(v) > 0 {
+			return fail(hx.Errf("while the second savepoint was taken: %s", strings.Join(v, "; ")))
+		}
+		for _, n := range w.Live() {
+			w.Kill(n)
+		}
+		w.Close()
+		time.Sleep(3 * time.Millisecond)
+		for i := 0; i < 3; i++ {
+			runtime.GC()
+			time.Sleep(200 * time.Microsecond)
+		}
+		loc := NewMemLoc(fs, "/job")
+		st.FilesWiped += loc.RemoveTree("/work") + loc.RemoveTree("/job/checkpoints")
+		st.Chained++
+		p2 := p
+		p2.Cfg = cfg
+		p2.FinalN = 0
+		st3, err3 := restoreFromSavepointDepth(p2, c, fs, uri2, data, totals, st, depth+1)
+		runtime.KeepAlive(w)
+		return st3, err3
+	}
+	if p.Chain == 1 && depth == 0 {
+		// the savepoint of the restored job is requested while it processes the rest of the input
+		return chain()
+	}
 	ok := WaitFor(stallAfter, func() bool {
 		if len(w.H.Violations()) > 0 {
 			return true
@@ -1024,7 +1087,10 @@ func restoreFromSavepoint(p Program, c *hx.Case, fs *storage.MemoryFilesystem, u
 			return fail(hx.Errf("after savepoint restore and the rest of the input: %s counts %d records, the input has %d", k, got[k], n))
 		}
 	}
-	return st, nil
+	if p.Chain != 2 || depth >= 1 {
+		return st, nil
+	}
+	return chain()
 }
 
 // readFinalState decodes the newest job checkpoint into per (key/split) counts.
